@@ -221,6 +221,8 @@ func generate(prop, tier string, seed uint64, jl *jobList) int {
 		genWaitCancelRuns(r, leafKinds(), jl.addFlow)
 	case "leaffail":
 		genLeafInjected(r, "fail", jl.addFlow)
+	case "batchflow":
+		genBatchFlow(r, thorough, jl.addFlow)
 	case "C10":
 		genC10(r, thorough, jl.addFlow)
 	case "C16":
